@@ -102,7 +102,7 @@ func (w *World) Poll(pred func() bool) error {
 		if last.Before(start) {
 			last = start
 		}
-		if now.Sub(last) > w.HangQuiet {
+		if now.Sub(last) > w.hangQuiet() {
 			return ErrHang
 		}
 		if now.Sub(start) > 10*time.Minute {
@@ -125,7 +125,7 @@ func (w *World) MustPoll(what string, pred func() bool) {
 	case nil:
 	case ErrHang:
 		w.hangDump(what)
-		w.Failf("hang: %s did not happen; no event for %v", what, w.HangQuiet)
+		w.Failf("hang: %s did not happen; no event for %v", what, w.hangQuiet())
 	default:
 		w.T.Fatalf("VERIF-INFRA inconclusive wait for %s: %v", what, err)
 	}
